@@ -11,7 +11,7 @@ from harness.core import Check, Outcome, SubCheck
 def fifo_case(draw, broker):
     prio = draw(st.sampled_from([0, 5, 5, 9]))
     foreign = draw(st.booleans())
-    mode = draw(st.sampled_from(["drain", "drain", "interleaved", "rejects", "foreign-run", "pause", "racing"]))
+    mode = draw(st.sampled_from(["drain", "drain", "interleaved", "rejects", "foreign-run", "pause", "racing", "returned-due"]))
     ops = []
     # other priority levels in the same queue: first-in first-out is demanded inside each level, whatever the others hold
     mixed = draw(st.integers(0, 2)) == 0
@@ -66,6 +66,23 @@ def fifo_case(draw, broker):
             ops.append({"op": "collect", "patience": {"mem": 0.2, "redis": 1.0, "amqp": 0.5}[broker]})
             ops.append({"op": "ack", "c": 0, "i": 0})
         for _ in range(total + 2):
+            ops += [dict(consume), {"op": "ack", "c": 0, "i": 0}]
+    elif mode == "returned-due":
+        # the returned message carries a schedule that is already due (a retried job with a zero back-off, a recurring job at its
+        # slot): it is an immediately deliverable message like any other and comes back before what is enqueued after its return
+        # (one scheduled message per history: how several due schedules are ordered among themselves - by due time on Redis - is
+        #  not what the property speaks about; everything enqueued after the return is an ordinary message)
+        ops.append(start)
+        ops.append({"op": "enq", "q": "qf", "topic": "t0", "prio": prio, "delay": {"kind": "net", "delta": draw(st.sampled_from([0.0, -0.5, -30.0]))},
+                    "payload": "", "client": "p0", "retries": 2, "tried": 1})
+        ops.append({"op": "advance", "dt": draw(st.sampled_from([0.01, 0.3, 1.2]))})
+        ops.append(dict(consume))
+        for _ in range(draw(st.integers(1, 3))):
+            ops.append({"op": "reject", "c": 0, "i": 0})
+            enq(draw(st.integers(1, 3)))
+            ops.append(dict(consume))
+        ops.append({"op": "ack", "c": 0, "i": 0})
+        for _ in range(12):
             ops += [dict(consume), {"op": "ack", "c": 0, "i": 0}]
     elif mode == "pause":
         # consumption is paused and resumed while messages wait (some of them already prefetched by the consumer)
